@@ -288,6 +288,18 @@ def run(ctx):
                                 elif not _write_raw(p, wrapped, with_version=(via != "file_noversion")):
                                     continue
                                 ctx.count("malformed_via_" + via)
+                                if rng.random() < 0.5:
+                                    # the reader has just read a *complete* file of the same shape: nothing of it may
+                                    # stand in for what the next file lacks
+                                    try:
+                                        wb = copy.deepcopy(base)
+                                        for lvl in range(depth):
+                                            wb = {"type": "NIRGraph", "nodes": {"inner": wb, "pad": copy.deepcopy(victims["Scale"])}, "edges": []}
+                                        p_ok = os.path.join(tmpdir, "complete.nir")
+                                        if _write_raw(p_ok, wb):
+                                            nir.read(p_ok); ctx.count("malformed_after_complete_read")
+                                    except Exception:
+                                        ctx.count("complete_file_not_read")
                                 obj = nir.read(p)
                             ctx.violate(case, f"{kind}: {'missing mandatory' if op == 'delete' else 'unknown extra'} field "
                                         f"{key!r} was {'defaulted' if op == 'delete' else 'ignored'} ({via})",
@@ -295,10 +307,86 @@ def run(ctx):
                                         observed=type(obj).__name__)
                         except Exception:
                             pass
+        fresh_reader(ctx, tmpdir)
         ctx.compare("dicts", cases, obs, reqs)
     finally:
         import shutil
         shutil.rmtree(tmpdir, ignore_errors=True)
+
+
+def _fresh_reader_sequence(tmpdir, seed, kinds):
+    """Runs in a child process that has read nothing else: per kind, a complete file, then files each lacking one mandatory
+    member / holding one unknown member, each read right after a successful read of the complete file, at top level and
+    one level down.  Returns [[kind, edit, key, depth, class name of what read returned], ...]: every entry is a file that
+    should have been refused."""
+    import random
+    import nir
+    rng = random.Random(seed)
+    accepted = []
+    for kind in kinds:
+        if kind == "NIRGraph":
+            base = nir.NIRGraph(nodes={"a": nir.Scale(np.arange(1.0, 3.0)), "b": nir.Threshold(np.ones(2))},
+                                edges=[("a", "b")], metadata={"k": 1}).to_dict()
+        else:
+            base = impl_construct(gen.node_recipe(rng, kind, meta_p=1.0)).to_dict()
+        mandatory = [k for k in base if k not in OPTIONAL and k not in OPTIONAL_BY_KIND.get(kind, set())]
+        for depth in (0, 1):
+            wrap = lambda d: d if depth == 0 else {"type": "NIRGraph", "nodes": {"inner": d}, "edges": []}
+            p_ok = os.path.join(tmpdir, "fresh-ok.nir"); p_bad = os.path.join(tmpdir, "fresh-bad.nir")
+            if not _write_raw(p_ok, wrap(copy.deepcopy(base))):
+                continue
+            edits = [("delete", k) for k in mandatory] + [("insert", "extra"), ("insert", "comment")]
+            for op, key in edits:
+                d = copy.deepcopy(base)
+                if op == "delete":
+                    del d[key]
+                else:
+                    d[key] = np.zeros(2)
+                if not _write_raw(p_bad, wrap(d)):
+                    continue
+                try:
+                    nir.read(p_ok)
+                except Exception:
+                    continue                 # (a complete file that is not read is not this check's business)
+                try:
+                    obj = nir.read(p_bad)
+                    accepted.append([kind, op, key, depth, type(obj).__name__])
+                except Exception:
+                    pass
+    return accepted
+
+
+def fresh_reader(ctx, tmpdir):
+    import json
+    import subprocess
+    import sys
+    rng = ctx.rng
+    here = os.path.dirname(os.path.dirname(os.path.abspath(__file__)))
+    repo = os.environ.get("NIR_REPO", "/repo")
+    kinds_all = gen.LEAF_KINDS + ["NIRGraph"]
+    groups = [rng.sample(kinds_all, 3) for _ in range(ctx.n(3, 8))]
+    for kinds in groups:
+        seed = rng.randrange(2 ** 31)
+        case = {"op": "fresh_reader_sequence", "kinds": kinds, "seed": seed}
+        ctx.case(case); ctx.count("fresh_reader_processes")
+        code = ("import sys, json, warnings; warnings.simplefilter('ignore'); sys.path.insert(0, %r); sys.path.insert(0, %r);"
+                "from props.c18 import _fresh_reader_sequence; print(json.dumps({'r': _fresh_reader_sequence(%r, %d, %r)}))"
+                % (repo, here, tmpdir, seed, kinds))
+        try:
+            p = subprocess.run([sys.executable, "-c", code], stdout=subprocess.PIPE, stderr=subprocess.PIPE, timeout=300)
+            out = p.stdout.decode("utf8", "replace").strip().splitlines()
+            res = json.loads(out[-1])["r"] if p.returncode == 0 and out else None
+        except Exception:
+            res = None
+        if res is None:
+            ctx.count("fresh_reader_process_failed")
+            continue
+        for kind, op, key, depth, what in res[:3]:
+            ctx.violate({**case, "kind": kind, "edit": op, "key": key, "depth": depth},
+                        f"{kind}: {'missing mandatory' if op == 'delete' else 'unknown extra'} member {key!r} was "
+                        f"{'defaulted' if op == 'delete' else 'ignored'} by a reader that had just read a complete file "
+                        "of the same kind", {"site": "file-after-complete-read", "what": op, "kind": kind, "depth": depth > 0},
+                        observed=what)
 
 
 def _store(group, node, fixed=False):
